@@ -370,6 +370,10 @@ def generate(seed, tier):
             if x < 0.35:
                 t = ["fresh", bname]
                 kind = "twin"
+            elif x < 0.58:
+                # unequal, but with an equal hash: class swapped among same-shape classes
+                t = spec.collide_variant(r, base)
+                kind = "collide"
             elif x < 0.7:
                 t = _mutate_one_field(r, base, g)
                 kind = "near"
